@@ -181,7 +181,10 @@ def drive_c19(tier, seed, cfg):
             for fmt in ("json", "csv"):
                 for ch in ("file", "stdin-", "stdin"):
                     for rep in range(2 if (nown and fmt == "json" and ch == "file") else 1):
-                        args = ["--quiet", "report"] + (["--csv"] if fmt == "csv" else [])
+                        # diagnostics must go to stderr in every verbosity: default (progress lines), --quiet, --verbose
+                        verbosity = {"file": ["--quiet"], "stdin-": [], "stdin": ["--verbose"]}[ch] if (i + rep) % 2 == 0 else \
+                                    {"file": [], "stdin-": ["--verbose"], "stdin": ["--quiet"]}[ch]
+                        args = verbosity + ["report"] + (["--csv"] if fmt == "csv" else [])
                         if ch == "file":
                             args.append(vname + ".tjp")
                         elif ch == "stdin-":
